@@ -3,7 +3,7 @@ import itertools
 from fractions import Fraction as Fr
 import numpy as np
 from harness import coqio as Q
-from harness.impl import make_probe, rand_unimodular, exc_name, family_wcs
+from harness.impl import poke_wcs, make_probe, rand_unimodular, exc_name, family_wcs
 
 CORR = "C14_corr"
 IMPORTS = ["M_Wrappers"]
@@ -321,7 +321,7 @@ def run(case):
     e, fam = case["e"], case["fam"]
     why = []
     try:
-        W = build_impl(e, fam)
+        W = poke_wcs(build_impl(e, fam), case["key"])
         exc = None
     except Exception as ex:  # noqa
         W, exc = None, exc_name(ex)
